@@ -22,7 +22,8 @@ RULE = ("stress cases: random histories of add/remove/move/query on the real Cel
         "(size, coordinate class mix, history seed). pipeline cases: generated structures (dense packing, waters, "
         "damaged side chains) run end to end with the in-vivo monitor on every neighbour query; distinct = "
         "(call site, cell size) pairs with at least one query plus distinct structures"
-        ' Round-2 additions: long real stretches; pKa route (hydrogens removed and rebuilt between the debump passes) on inputs that already carry hydrogens.')
+        ' Round-2 additions: long real stretches; pKa route (hydrogens removed and rebuilt between the debump passes) on inputs that already carry hydrogens.'
+        " Round-3/4 additions: the monitor's reference population no longer depends on Cells.assign_cells (falls back to the biomolecule of the run in progress).")
 ASSUMPTIONS = ["brute force over the atoms currently owned by residues is the ground truth for 'every atom'",
                "a query is judged at the moment it is made (under the code's own single thread)"]
 MIN = {"quick": {"stress_queries": 20000, "invivo_queries": 6000, "stress_moves_across_cells": 500, "pka_route_runs": 6},
